@@ -59,7 +59,6 @@ type Cell struct {
 	id    int
 }
 
-
 func isComposite(t types.Type) bool {
 	switch t.Underlying().(type) {
 	case *types.Struct, *types.Array:
@@ -396,3 +395,85 @@ func describeValue(v Value) string {
 }
 
 var _ = big.NewInt
+
+// ---------------------------------------------------------------- heap cloning (init snapshots)
+
+type cloner struct {
+	cells map[*Cell]*Cell
+	maps  map[*MapV]*MapV
+}
+
+func (c *cloner) cell(x *Cell) *Cell {
+	if x == nil {
+		return nil
+	}
+	if y, ok := c.cells[x]; ok {
+		return y
+	}
+	y := &Cell{typ: x.typ, id: x.id, pidx: x.pidx}
+	c.cells[x] = y
+	y.par = c.cell(x.par)
+	if x.elems != nil {
+		y.elems = make([]*Cell, len(x.elems))
+		for i, e := range x.elems {
+			y.elems[i] = c.cell(e)
+		}
+	} else {
+		y.v = c.value(x.v)
+	}
+	return y
+}
+
+func (c *cloner) value(v Value) Value {
+	switch x := v.(type) {
+	case *Ptr:
+		p := &Ptr{alts: make([]PtrAlt, len(x.alts))}
+		for i, a := range x.alts {
+			p.alts[i] = PtrAlt{a.cond, c.cell(a.cell)}
+		}
+		return p
+	case *SliceV:
+		return &SliceV{arr: c.cell(x.arr), off: x.off, len: x.len, cap: x.cap}
+	case *StructV:
+		s := &StructV{f: make([]Value, len(x.f))}
+		for i := range x.f {
+			s.f[i] = c.value(x.f[i])
+		}
+		return s
+	case *ArrayV:
+		s := &ArrayV{e: make([]Value, len(x.e))}
+		for i := range x.e {
+			s.e[i] = c.value(x.e[i])
+		}
+		return s
+	case *IfaceV:
+		return &IfaceV{typ: x.typ, v: c.value(x.v)}
+	case *FuncV:
+		f := &FuncV{fn: x.fn, builtin: x.builtin, recv: x.recv}
+		for _, b := range x.bind {
+			f.bind = append(f.bind, c.value(b))
+		}
+		return f
+	case *MapV:
+		if x == nil {
+			return x
+		}
+		if m, ok := c.maps[x]; ok {
+			return m
+		}
+		m := &MapV{kt: x.kt, vt: x.vt}
+		c.maps[x] = m
+		for i := range x.keys {
+			m.keys = append(m.keys, c.value(x.keys[i]))
+			m.vals = append(m.vals, c.value(x.vals[i]))
+		}
+		return m
+	case TupleV:
+		t := make(TupleV, len(x))
+		for i := range x {
+			t[i] = c.value(x[i])
+		}
+		return t
+	}
+	return v
+}
